@@ -52,6 +52,7 @@ type RunCfg struct {
 	Sched    string // "runtoblock" | "gates" | "all"
 	MaxSteps int
 	ZZPath   string // import path of the helper package
+	ConcreteClock bool
 }
 
 type Exec struct {
@@ -142,7 +143,7 @@ func (e *Exec) wantTerms() []*Term {
 	for _, n := range e.nondets {
 		ws = append(ws, n.t)
 	}
-	if e.clock0 != nil {
+	if e.clock0 != nil && !e.clock0.IsConst() {
 		ws = append(ws, e.clock0)
 	}
 	for _, t := range e.obsTerms {
@@ -159,7 +160,11 @@ func (e *Exec) mkViolation(kind, msg string, model map[*Term]uint64) Violation {
 		v.Values[n.label] = append(v.Values[n.label], model[n.t])
 	}
 	if e.clock0 != nil {
-		v.Clock0 = int64(model[e.clock0])
+		if e.clock0.IsConst() {
+			v.Clock0 = int64(e.clock0.C)
+		} else {
+			v.Clock0 = int64(model[e.clock0])
+		}
 	}
 	v.Trace = e.renderTrace(model)
 	if e.Sc != nil {
